@@ -123,8 +123,10 @@ async def merge(
     a_key = awaitify(key) if key is not None else None
     # all iterators are owned from the start: they are closed even if
     # fetching the first items fails or the merge is closed early
-    iterators = [aiter(iterable) for iterable in iterables]
+    iterators: "list[AsyncIterator[Any]]" = []
     try:
+        for iterable in iterables:
+            iterators.append(aiter(iterable))
         # sortable iterators with position to ensure stable sort for ties:
         # in either direction, the item from the earlier iterable comes first
         iter_heap: "list[tuple[_KeyIter[Any], int]]" = [
